@@ -157,6 +157,10 @@ def search(ctx):
         check_euler_band(rng, n, found, stats)
     except Exception as e:
         ctx.notes.append("search: euler band raised %s" % e)
+    try:
+        check_star_products(rng, 4 if ctx.tier == "quick" else 30, found, stats)
+    except Exception as e:   # noqa: BLE001
+        ctx.notes.append("search: star products raised %s: %s" % (type(e).__name__, str(e)[:160]))
     for f in found:
         f["obligation"] = "search:" + f["case"]
     if found:
@@ -165,6 +169,70 @@ def search(ctx):
         ctx.samples.append({"group": "SE3Mrp", "example_input": common.groups_by_name()["SE3Mrp"].sample(rng).tolist()})
     return found, {"evaluations": stats["evaluations"], "distinct_nontrivial": len(stats["distinct"]),
                    "groups": [g.name for g in common.groups()]}
+
+
+def check_star_products(rng, reps, found, stats):
+    """direct products built with `*` at run time — including the SAME factor more than once — against an oracle that
+    never goes through the product class: block-diagonal of the factors' own matrices, factor-wise product / inverse / identity"""
+    import casadi as ca
+    import cyecca.lie as lie
+    from cyecca.lie.group_so3 import SO3Quat, SO3Mrp
+    from cyecca.lie.group_se2 import SE2
+    from cyecca.lie.group_so2 import SO2
+    from cyecca.lie.group_rn import R2, R3
+
+    def blockdiag(ms):
+        n = sum(m.shape[0] for m in ms); out = np.zeros((n, n)); k = 0
+        for m in ms:
+            out[k:k + m.shape[0], k:k + m.shape[0]] = m; k += m.shape[0]
+        return out
+    samp = {"R2": lambda: rng.standard_normal(2) * 2, "R3": lambda: rng.standard_normal(3) * 2, "SO2": lambda: rng.uniform(-3, 3, 1),
+            "SE2": lambda: np.concatenate([rng.standard_normal(2), rng.uniform(-3, 3, 1)]), "SO3Quat": lambda: common.s_quat(rng),
+            "SO3Mrp": lambda: common.s_mrp(rng)}
+    grp = {"R2": R2, "R3": R3, "SO2": SO2, "SE2": SE2, "SO3Quat": SO3Quat, "SO3Mrp": SO3Mrp}
+    exprs = [["R3", "R3"], ["SE2", "R3", "R3"], ["SO2", "SO2", "R2"], ["SO3Quat", "R3", "SO3Quat"], ["R2", "SO3Mrp", "R2", "SO3Mrp"], ["SE2", "SE2"]]
+    for names in exprs:
+        G = grp[names[0]]
+        for nm in names[1:]:
+            G = G * grp[nm]
+        tag = "*".join(names)
+        dims = [len(samp[nm]()) for nm in names]
+        xs, ys = ca.SX.sym("x", sum(dims)), ca.SX.sym("y", sum(dims))
+        fM = ca.Function("m", [xs], [ca.densify(G.elem(xs).to_Matrix())])
+        fP = ca.Function("p", [xs, ys], [(G.elem(xs) * G.elem(ys)).param])
+        fI = ca.Function("i", [xs], [G.elem(xs).inverse().param])
+        ident = np.array(ca.DM(G.identity().param), dtype=float).ravel()
+        facM, facP, facI, facE = [], [], [], []
+        for nm in names:
+            g = grp[nm]; d = len(samp[nm]()); a, b = ca.SX.sym("a", d), ca.SX.sym("b", d)
+            facM.append(ca.Function("m", [a], [ca.densify(g.elem(a).to_Matrix())]))
+            facP.append(ca.Function("p", [a, b], [(g.elem(a) * g.elem(b)).param]))
+            facI.append(ca.Function("i", [a], [g.elem(a).inverse().param]))
+            facE.append(np.array(ca.DM(g.identity().param), dtype=float).ravel())
+        for r in range(reps):
+            X = [samp[nm]() for nm in names]; Y = [samp[nm]() for nm in names]
+            x, y = np.concatenate(X), np.concatenate(Y)
+            stats["evaluations"] += 1; stats["distinct"].add((tag, r))
+            inp = {"product": tag, "X": x.tolist(), "Y": y.tolist()}
+
+            def rep(case, what, err):
+                if not any(f["case"] == case for f in found):
+                    found.append({"case": case, "what": what, "function": tag, "inputs": inp, "error": float(err), "tolerance": 1e-9})
+            MX = np.array(fM(x), dtype=float); orM = blockdiag([np.atleast_2d(np.array(f(v), dtype=float)) for f, v in zip(facM, X)])
+            if MX.shape != orM.shape or not np.max(np.abs(MX - orM)) <= 1e-9:
+                rep("star:%s:toMatrix" % tag, "matrix of a `*` product element is not the block diagonal of its factors' matrices", 1.0 if MX.shape != orM.shape else np.max(np.abs(MX - orM)))
+            P = np.array(fP(x, y), dtype=float).ravel(); orP = np.concatenate([np.array(f(a, b), dtype=float).ravel() for f, a, b in zip(facP, X, Y)])
+            if P.shape != orP.shape or not np.max(np.abs(P - orP)) <= 1e-9:
+                rep("star:%s:product" % tag, "product in a `*` product group is not the factor-wise product", 1.0 if P.shape != orP.shape else np.max(np.abs(P - orP)))
+            I = np.array(fI(x), dtype=float).ravel(); orI = np.concatenate([np.array(f(a), dtype=float).ravel() for f, a in zip(facI, X)])
+            if I.shape != orI.shape or not np.max(np.abs(I - orI)) <= 1e-9:
+                rep("star:%s:inverse" % tag, "inverse in a `*` product group is not the factor-wise inverse", 1.0 if I.shape != orI.shape else np.max(np.abs(I - orI)))
+            orE = np.concatenate(facE)
+            if ident.shape != orE.shape or not np.max(np.abs(ident - orE)) <= 1e-12:
+                rep("star:%s:identity" % tag, "identity of a `*` product group is not the concatenation of the factors' identities", 1.0)
+            PL = np.array(fP(ident, x), dtype=float).ravel(); PR = np.array(fP(x, ident), dtype=float).ravel()
+            if not (np.max(np.abs(PL - x)) <= 1e-9 and np.max(np.abs(PR - x)) <= 1e-9):
+                rep("star:%s:neutral" % tag, "identity is not neutral in a `*` product group", max(np.max(np.abs(PL - x)), np.max(np.abs(PR - x))))
 
 
 def replay(payload):
